@@ -560,9 +560,19 @@ func runC18(r *simkit.R) {
 	cfg := drawShCfg(r, 0)
 	cfg.rmBatch = 100
 	nreg := 3 + r.Intn(3)
-	w := newShWorld(r, cfg, nreg+5)
-	w.u = zz.NewUniverse(r.U32()%1000, 1, nreg+5)
+	// a few runs carry more blobs than one resynchronisation batch (1000): the batch boundary
+	// must not lose or reorder anything
+	nfill := 0
+	if r.Bool(3) {
+		nfill = 1000 + r.Intn(6)
+		r.Probe("more blobs than one resync batch")
+	}
+	w := newShWorld(r, cfg, nreg+5+nfill)
+	w.u = zz.NewUniverse(r.U32()%1000, 1, nreg+5+nfill)
 	w.layoutSimple(nreg, 2, 2, func() int { return []int{10, 300}[r.Intn(2)] })
+	for id := nreg + 5; id < nreg+5+nfill; id++ {
+		w.u.Specs[id] = &zz.Spec{ID: id, Cnr: 0, Kind: zz.KReg, Parent: -1, First: -1, Split: -1, Exp: -1, Size: 1, Target: -1, ECRule: -1}
+	}
 	// one split family: parent (virtual) + last part carrying the parent header
 	par, part := nreg+4, nreg-1
 	w.u.Specs[par] = &zz.Spec{ID: par, Cnr: 0, Kind: zz.KReg, Parent: -1, First: -1, Split: -1, Exp: -1, Size: 64, Target: -1, ECRule: -1, Virtual: true}
@@ -594,6 +604,15 @@ func runC18(r *simkit.R) {
 			w.settle(2 * cfg.gcInterval) // GC may collect tombstoned objects physically
 		}
 	}
+	if nfill > 0 {
+		w.exclusive("bulk-put", func() {
+			for id := nreg + 5; id < nreg+5+nfill; id++ {
+				if err := w.sh.Put(w.u.Build(w.u.Specs[id]), nil); err != nil {
+					r.Failf("infra", "bulk put", "%v", err)
+				}
+			}
+		})
+	}
 	w.settle(500 * time.Millisecond)
 	// what the blobs contain
 	var blobs []int
@@ -608,7 +627,11 @@ func runC18(r *simkit.R) {
 	for _, id := range blobs {
 		has[id] = true
 	}
-	r.Op("blob set: %v at epoch %d", blobs, w.ep.e)
+	if nfill > 0 {
+		r.Op("blob set: %d blobs at epoch %d", len(blobs), w.ep.e)
+	} else {
+		r.Op("blob set: %v at epoch %d", blobs, w.ep.e)
+	}
 	// freeze the source: every permutation starts from the same image (the source shard's own
 	// GC would otherwise keep collecting while the simulated clock advances)
 	base := w.snapshot("base")
@@ -693,10 +716,33 @@ func runC18(r *simkit.R) {
 			nperm *= i
 		}
 	}
+	if nfill > 0 {
+		nperm = 2
+	}
 	inverted := false
 	var first map[int]status
 	for p := 0; p < nperm && p < 24; p++ {
 		perm := r.Perm(len(blobs))
+		if nfill > 0 && len(blobs) > 1001 {
+			// put a tombstone / lock (or, failing that, any early object) exactly behind the first batch
+			sortedB := append([]int(nil), blobs...)
+			sort.Slice(sortedB, func(i, j int) bool { return w.addr(sortedB[i]).String() < w.addr(sortedB[j]).String() })
+			want := -1
+			for i, id := range sortedB {
+				if k := w.u.Specs[id].Kind; (k == zz.KTomb || k == zz.KLock) && (want < 0 || r.Bool(50)) {
+					want = i
+				}
+			}
+			if want < 0 {
+				want = 0
+			}
+			for j := range perm {
+				if perm[j] == want {
+					perm[1000], perm[j] = perm[j], perm[1000]
+					break
+				}
+			}
+		}
 		w.iterPerm = func(n int) []int {
 			if n == len(perm) {
 				return perm
@@ -740,7 +786,11 @@ func runC18(r *simkit.R) {
 				got[id] = classOf(w2.sh, id)
 			}
 		})
-		r.Op("permutation %v -> %v", order, fmtStatuses(got))
+		if nfill > 0 {
+			r.Op("permutation of %d blobs (o%d behind the first batch)", len(order), order[1000])
+		} else {
+			r.Op("permutation %v -> %v", order, fmtStatuses(got))
+		}
 		for id := range w.u.IDs {
 			want, wl := expect(id)
 			okc := false
